@@ -11,7 +11,7 @@ class C05(Prop):
     id = "C05"
     props_file = "Props/C05.v"
     rule = ("random dict-rooted trees x histories of 1..6 operations mixing delete / pop (every spelling lookup accepts: "
-            "relative, '/'- and '//'-rooted, 'a[i][j]', negative / last() indexes; recursively on and off; missing paths) with "
+            "relative, '/'- and '//'-rooted, 'a[i][j]', negative / last() indexes; recursively on and off; missing paths through pop and delete: unknown keys, indexes just outside a list on either side and far outside) with "
             "C02 writes and C03 creations; tree compared with the model after the history and with a plain reference after "
             "every step; pop's return value compared with lookup. non-trivial = no exception; distinct = distinct (tree, history)")
     trusted_base = ["reference semantics of delete on plain nested dict/list: harness (xpath_common.ref_del)"]
@@ -54,9 +54,26 @@ class C05(Prop):
                     cur = X.ref_set(cur, [nm], v)
                 else:
                     # a missing path: pop returns the default and changes nothing
-                    base = X.render(cur, rng.choice(nodes)[0], rng) if nodes else ""
-                    ops.append(["pop", base + rng.choice(["/nokey", "[99]", "/nokey/x"]), rng.random() < 0.3])
-                    metas.append({"missing": True})
+                    lists = [(p, v) for p, v in nodes if isinstance(v, list)]
+                    if lists and rng.random() < 0.6:
+                        # an index just outside the list, on either side (and far outside)
+                        lp, lv = rng.choice(lists)
+                        ln = len(lv)
+                        idx = rng.choice([ln, ln + 1, -ln - 1, -ln - 2, -2 * ln, -2 * ln - 1, 2 * ln, 99, -99])
+                        sfx = "[%d]" % idx + rng.choice(["", "", "/x", "[0]"])
+                        base = X.render(cur, lp, rng)
+                    else:
+                        base = X.render(cur, rng.choice(nodes)[0], rng) if nodes else ""
+                        sfx = rng.choice(["/nokey", "[99]", "/nokey/x", "[-99]"])
+                    if rng.random() < 0.5:
+                        ops.append(["pop", base + sfx, rng.random() < 0.3])
+                        metas.append({"missing": True})
+                    else:
+                        # delete of a path that addresses nothing: whatever it answers, nothing may be removed;
+                        # it may raise, so it is the last operation of its history
+                        ops.append(["del", base + sfx, rng.random() < 0.3])
+                        metas.append({"missing": True})
+                        break
             if ops:
                 out.append({"stream": "ops", "tag": "hist:%d" % len(ops), "input": {"tree": t, "mode": mode, "ops": ops, "metas": metas}})
         self._exh = None
@@ -91,6 +108,14 @@ class C05(Prop):
             expected_val = None
             if op[0] == "pop" and not m.get("missing"):
                 expected_val = X.raw_get(obj, m["path"])
+            if m.get("missing") and op[0] == "del":
+                try:
+                    X.apply_op(obj, op)
+                finally:
+                    if fail is None and not X.same(X.plain(obj), before):
+                        fail = "delete(%r) of a missing path changed the tree: %r -> %r" % (op[1], before, X.plain(obj))
+                    case["_fail"] = fail
+                continue
             r = X.apply_op(obj, op)
             if m.get("missing"):
                 if fail is None and (not (isinstance(r, str) and r == X.DFLT) or not X.same(X.plain(obj), before)):
@@ -110,9 +135,11 @@ class C05(Prop):
         return X.ops_lit(X.build(i["tree"], i["mode"]), i["ops"])
 
     def oracle(self, case, obs):
-        if "raise" in obs:
+        fail = case.pop("_fail", None)
+        i = case["input"]
+        if "raise" in obs and not (i["metas"] and i["metas"][-1].get("missing") and i["ops"][-1][0] == "del"):
             return "an operation on an existing node raised %s" % obs.get("exc")
-        return case.pop("_fail", None)
+        return fail
 
 
 PROP = C05
